@@ -501,9 +501,12 @@ class Engine:
                 j = self.eval(idx.elts[1], st, exits)
                 self.raise_exc(st, "IndexError", z3.Not(z3.And(i.z >= -base.r, i.z < base.r, j.z >= -base.c, j.z < base.c)),
                                tgt.lineno, exits)
-                ii = z3.If(i.z < 0, i.z + base.r, i.z)
-                jj = z3.If(j.z < 0, j.z + base.c, j.z)
-                base.arr = z3.Store(base.arr, ii * MATW + jj, to_real(val))
+                ii = z3.simplify(z3.If(i.z < 0, i.z + base.r, i.z))
+                jj = z3.simplify(z3.If(j.z < 0, j.z + base.c, j.z))
+                new = Mat(z3.Store(base.arr, ii, jj, to_real(val)), base.r, base.c)
+                for k, v in list(st.env.items()):      # arrays are mutable: rebind every alias
+                    if v is base:
+                        st.env[k] = new
                 return
             if isinstance(base, Seq):
                 if not base.is_list:
@@ -643,7 +646,7 @@ class Engine:
                 st.assume(s.n >= 0)
                 st.env[nme] = s
             elif isinstance(v, Mat):
-                st.env[nme] = Mat(fresh(nme, z3.ArraySort(z3.IntSort(), z3.RealSort())), v.r, v.c)
+                st.env[nme] = Mat(fresh(nme, MATSORT), v.r, v.c)
             elif isinstance(v, (NoneV, Const)):
                 pass   # type-stable only if not reassigned to another kind; checked by invariant failure otherwise
             else:
@@ -1037,9 +1040,9 @@ class Engine:
             j = self.eval(sl.elts[1], st, exits)
             self.raise_exc(st, "IndexError", z3.Not(z3.And(i.z >= -base.r, i.z < base.r, j.z >= -base.c, j.z < base.c)),
                            node.lineno, exits)
-            ii = z3.If(i.z < 0, i.z + base.r, i.z)
-            jj = z3.If(j.z < 0, j.z + base.c, j.z)
-            return Num(z3.Select(base.arr, ii * MATW + jj), False)
+            ii = z3.simplify(z3.If(i.z < 0, i.z + base.r, i.z))
+            jj = z3.simplify(z3.If(j.z < 0, j.z + base.c, j.z))
+            return Num(z3.Select(base.arr, ii, jj), False)
         idx = self.eval(sl, st, exits)
         if isinstance(base, Obj):
             h = self.c.calls.get("getitem:%s" % base.cls)
@@ -1342,7 +1345,16 @@ class SkipClause(Exception):
     pass
 
 
-MATW = 100003   # row stride of the flattened 2-D model (any value larger than every column count)
+MATSORT = z3.ArraySort(z3.IntSort(), z3.IntSort(), z3.RealSort())
+
+
+def zero_mat(r, c):
+    return Mat(z3.K(z3.IntSort(), z3.K(z3.IntSort(), z3.RealVal(0))) if False else _zero2(), r, c)
+
+
+def _zero2():
+    i, j = z3.Ints("zi zj")
+    return z3.Lambda([i, j], z3.RealVal(0))
 BUILTIN_NAMES = {"len", "range", "float", "int", "abs", "tuple", "list", "isinstance", "sorted", "min", "max", "sum",
                  "enumerate", "zip", "ValueError", "TypeError", "IndexError", "AssertionError", "str", "type"}
 
@@ -1434,7 +1446,7 @@ class SpecEval:
         base = self.eval(node.value)
         if isinstance(node.slice, ast.Tuple) and isinstance(base, Mat):
             i, j = self.eval(node.slice.elts[0]), self.eval(node.slice.elts[1])
-            return Num(z3.Select(base.arr, i.z * MATW + j.z), False)
+            return Num(z3.Select(base.arr, i.z, j.z), False)
         idx = self.eval(node.slice)
         if isinstance(base, Seq):
             return Num(z3.Select(base.arr, idx.z), False)
